@@ -83,6 +83,7 @@ RULE = ("generated engines over every registered term class (incl. Discrete, Lin
         "inf defaults, lock flags x decimals 1..9 x input rows; mutated texts (number formats, comments, order, duplicates, "
         "omitted lines, malformed); every component printer / parser on its own.  non-trivial: the case exercises a height / "
         "weight decision, a non-default parameter, or a rejected text; distinct = distinct canonical case")
+RULE += (" Engines whose descriptions hold runs of blanks, tabs, colons and punctuation and whose Function formulas are spaced out (drawn after the other families).")
 RULE += (" Stream `configure` (fv/streams/wave5x.py): Engine.configure with None / registered names / unregistered names / objects for each of the six operators, against Op.Engine.configure; after a raise no operator of the engine may have changed.")
 ASSUMPTIONS = ["CPython float(text) / format(x, '.df') and the nearest-double step are trusted (the model's numbers after an import are "
                "exact decimals); heights / weights whose printed form is at exact distance atol from 1 (0.999 at 3+ decimals) are "
@@ -655,6 +656,40 @@ def engine_cases(ctx):
             yield {"kind": "engine", "decimals": d2, "spec": spec, "representable": False}
 
 
+def spacing_cases(ctx):
+    """the quantifier's "single-line descriptions without '#'" and the parameter text of Function terms taken as free text:
+    engines as above whose descriptions (engine, variables, rule blocks) hold runs of blanks, tabs, colons and every
+    printable punctuation character, and whose formulas are spaced out (`G.respace`); the same oracle as every engine case
+    (text, structure incl. description and formula, outputs when representable, fixed point)"""
+    rng = ctx.rng
+    for i in range(ctx.scale(36, 400)):
+        d = 1 + (i % 9)
+        rep = i % 3 == 0
+        spec = G.gen_engine_spec(rng, d, mode="grid" if rep else "float", representable=rep,
+                                 force_terms=["Function"] if i % 2 else ["Discrete"], size="small")
+        # two accidents of the random names and numbers, kept out of this family (no draw is involved): an inert
+        # substitution variable of a Function term that carries the name of a variable of the engine (a name clash that
+        # membership() must reject - C17 - and that the FuzzyLite Language, which does not carry substitution variables,
+        # cannot reproduce), and a shape parameter that is exactly 0 (a width or slope of 0 divides by zero: ZeroDivisionError
+        # with the Python floats of a built engine, inf / nan with the NumPy floats of an imported one)
+        names = {v["name"] for v in spec["inputs"] + spec["outputs"]}
+        for v in spec["inputs"] + spec["outputs"]:
+            for t in v["terms"]:
+                for k in [k for k in t.get("variables", {}) if k in names]:
+                    del t["variables"][k]
+                if "params" in t:
+                    t["params"] = [G.fhex(10.0 ** -d) if G.unhex(x) == 0 else x for x in t["params"]]
+        G.respace(rng, spec)
+        if i % 2 == 0:
+            # pairs of Discrete terms in any order (descending, shuffled, repeated abscissa), terms built through every
+            # construction path: the text lists the pairs as stored and the import must store them as listed
+            G.discrete_layouts(rng, spec, d, "grid" if rep else "float")
+        case = {"kind": "engine", "decimals": d, "spec": spec, "representable": rep}
+        if rep:
+            case["rows"] = G.input_rows(rng, spec, ctx.scale(3, 8))
+        yield case
+
+
 def component_cases(ctx):
     rng = ctx.rng
     classes = list(G.term_classes())
@@ -711,7 +746,9 @@ def correspond(ctx):
     # ---- engines
     texts = []
     seen_classes = set()
-    for case in engine_cases(ctx):
+
+    def engine_case(case, pool=True):
+        nonlocal seen_classes
         d, spec = case["decimals"], case["spec"]
         fragile = G.spec_is_fragile(spec, d)
         with fl.settings.context(decimals=d), np.errstate(all="ignore"):
@@ -722,7 +759,7 @@ def correspond(ctx):
             if not ok:
                 small = shrink_engine(case, lambda c: not oracle(c)[0])
                 violation(small, oracle(small)[1])
-                continue
+                return
             e2 = fl.FllImporter().from_string(t1)
             real_import = C.parse_sx(C.sx(G.m_engine(e2)))
         for v in spec["inputs"] + spec["outputs"]:
@@ -744,13 +781,16 @@ def correspond(ctx):
         if fragile:
             st.skipped_fragile += 1
             st.count("engine-fragile(model comparison skipped)")
-            continue
+            return
         me = G.m_engine(e)
         ask(["fll-export", d, tol, me], ("export", case, t1))
         ask(["fll-import", C.hexs(t1)], ("import", case, real_import))
         ask(["fll-canon", d, tol, me], ("canon", case, real_import))
-        if len(texts) < ctx.scale(250, 1500):
+        if pool and len(texts) < ctx.scale(250, 1500):
             texts.append((d, t1))
+
+    for case in engine_cases(ctx):
+        engine_case(case)
     ctx.notes["classes_covered"] = len(seen_classes)
     fm = fl.settings.factory_manager
     expected = {f"term:{k}" for k in G.term_classes()} | {f"tnorm:{k}" for k in G.keys(fm.tnorm)} | \
@@ -854,6 +894,10 @@ def correspond(ctx):
                 st.case(("rule", d, json.dumps(spec, sort_keys=True)), r.weight != 1.0)
                 ask(["fll-rule", d, tol, G.m_rule(r)], ("text", case, p))
                 ask(["fll-rule-import", C.hexs(p)], ("sexp", case, C.parse_sx(C.sx(G.m_rule(r2)))))
+    # ---- engines whose descriptions and formulas are typed with runs of blanks, tabs and punctuation (drawn last)
+    for case in spacing_cases(ctx):
+        st.count("engine-spacing")
+        engine_case(case, pool=False)
     # ---- the model, one batch
     outs = ctx.driver.eval(lines)
     for (what, case, real), o in zip(jobs, outs):
@@ -930,7 +974,7 @@ def probes(ctx):
 
 
 def search(ctx):
-    for gen in (engine_cases, component_cases):
+    for gen in (engine_cases, component_cases, spacing_cases):
         for case in gen(ctx):
             ok, d = oracle(case)
             if not ok:
